@@ -61,7 +61,7 @@ class C01(Prop):
         steps = []
         prev_after = None
         chain_ok = True
-        for (name, path, before, after) in log:
+        for (name, path, before, after, *_rest) in log:
             _, _, cb = convert(before)
             _, _, ca = convert(after)
             if prev_after is not None and prev_after != before:
